@@ -748,7 +748,21 @@ func recvAdversary(e *Env) {
 		// nick on the wrong channel, not only the ones for unknown names
 		pre := []string{":me!u@h JOIN :#c", ":me!u@h JOIN #d", ":bob!u@h JOIN #c", ":al!u@h JOIN :#d",
 			":irc.sim 353 me = #c :me @bob", ":irc.sim 352 me #d u h irc.sim al H :0 Al"}
-		probes = append(pre[:g.Range(3, len(pre))], probes...)
+		pre = pre[:g.Range(3, len(pre))]
+		if g.Pct(30) {
+			// a crowded namespace: every nick the collision generator can derive
+			// from the client's own is taken by somebody on #c, and the server
+			// then refuses the client's nick (a line like any other)
+			var sib []string
+			for n := client.DefaultNewNick("me"); n != "me" && len(sib) < 80; n = client.DefaultNewNick(n) {
+				sib = append(sib, n)
+			}
+			pre = append(pre, ":irc.sim 353 me = #c :"+strings.Join(sib, " "))
+			at := g.Intn(len(probes) + 1)
+			probes = append(probes[:at], append([]string{":irc.sim 433 me me :Nickname is already in use."}, probes[at:]...)...)
+			e.S.Count("probe.nick-refused-with-every-derived-nick-taken")
+		}
+		probes = append(pre, probes...)
 		e.S.Count("probe.hostile-lines-against-a-populated-tracker")
 	}
 	n = len(probes)
